@@ -994,3 +994,84 @@ def unicode_isspace(I, args, ins):
     if isinstance(r, int):
         return r in (0x09, 0x0a, 0x0b, 0x0c, 0x0d, 0x20, 0x85, 0xa0)
     return b_or(*[r == c for c in (0x09, 0x0a, 0x0b, 0x0c, 0x0d, 0x20, 0x85, 0xa0)])
+
+
+# ------------------------------------------------------------------ regexp (opaque objects remembering their pattern)
+import re as _re
+
+REGEXP_CONTRACTS = {}   # pattern text -> handler(I, method, re_obj, args) for symbolic inputs
+
+
+@stub('regexp.MustCompile', 'regexp.Compile')
+def regexp_compile(I, args, ins):
+    ctx = I.ctx
+    pat = args[0]
+    if not isinstance(pat, str):
+        raise Inconclusive('regexp with symbolic pattern')
+    p = ctx.alloc(StructV([pat]), 'regexp')
+    ctx.ghost.setdefault('regexps', {})[p.cell] = pat
+    if ins['call']['fn']['n'].endswith('MustCompile'):
+        return p
+    return TupleV((p, None))
+
+
+def _pattern(I, p):
+    p = I.ctx.force(p)
+    if p is None:
+        raise GoPanic('nil-deref', I.ctx.cur_pos)
+    pat = I.ctx.ghost.get('regexps', {}).get(p.cell)
+    if pat is None:
+        pat = I.ctx.load(p)[0]
+    return pat
+
+
+def _go_re(pat):
+    return _re.compile(pat.encode('latin-1'))
+
+
+@stub('(*regexp.Regexp).ReplaceAllString')
+def regexp_replaceall(I, args, ins):
+    pat = _pattern(I, args[0])
+    s, repl = args[1], args[2]
+    if isinstance(s, str) and isinstance(repl, str):
+        return _go_re(pat).sub(repl.encode('latin-1').replace(b'\\', b'\\\\'), s.encode('latin-1')).decode('latin-1')
+    h = REGEXP_CONTRACTS.get(pat)
+    if h is not None:
+        return h(I, 'ReplaceAllString', args)
+    if repl == '':
+        # removal of all matches: an idempotent uninterpreted function that is the identity on strings without a match
+        f = z3.Function('re.strip:' + pat, z3.StringSort(), z3.StringSort())
+        r = f(zstr(s))
+        I.ctx.add_inv(f(r) == r)
+        I.ctx.add_inv(z3.Length(r) <= z3.Length(zstr(s)))
+        return r
+    raise Inconclusive('regexp %r has no symbolic contract for ReplaceAllString' % pat)
+
+
+@stub('(*regexp.Regexp).FindStringSubmatch')
+def regexp_findsubmatch(I, args, ins):
+    pat = _pattern(I, args[0])
+    s = args[1]
+    if isinstance(s, str):
+        m = _go_re(pat).search(s.encode('latin-1'))
+        if m is None:
+            return NIL_SLICE
+        groups = [m.group(0)] + list(m.groups())
+        return I.make_slice([(g.decode('latin-1') if g is not None else '') for g in groups])
+    h = REGEXP_CONTRACTS.get(pat)
+    if h is not None:
+        return h(I, 'FindStringSubmatch', args)
+    raise Inconclusive('regexp %r has no symbolic contract for FindStringSubmatch' % pat)
+
+
+@stub('(*regexp.Regexp).MatchString')
+def regexp_matchstring(I, args, ins):
+    pat = _pattern(I, args[0])
+    s = args[1]
+    if isinstance(s, str):
+        return _go_re(pat).search(s.encode('latin-1')) is not None
+    h = REGEXP_CONTRACTS.get(pat)
+    if h is not None:
+        return h(I, 'MatchString', args)
+    f = z3.Function('re.match:' + pat, z3.StringSort(), z3.BoolSort())
+    return f(s)
